@@ -1,4 +1,5 @@
 import Glas.Props.C04
+import Glas.Props.C04Pratt
 #print axioms Glas.Props.C04.infix_ops_exact
 #print axioms Glas.Props.C04.prefix_ops_exact
 #print axioms Glas.Props.C04.left_assoc
@@ -6,3 +7,6 @@ import Glas.Props.C04
 #print axioms Glas.Props.C04.levels_ordered
 #print axioms Glas.Props.C04.prefix_tighter
 #print axioms Glas.Props.C04.no_spurious_noassoc
+#print axioms Glas.Props.C04Pratt.pratt_roundtrip
+#print axioms Glas.Props.C04Pratt.glas_tableOK
+#print axioms Glas.Props.C04Pratt.C04_pratt
